@@ -610,3 +610,9 @@ func runC02(r *vk.Run) {
 	r.Require("since_until_pairs", 2000)
 	r.Require("lines_traced_to_origin", 1000)
 }
+
+func init() {
+	// values longer than any "reasonable" label: they are values like any other, compared in full
+	long := strings.Repeat("0123456789abcdef", 190) // 3040 bytes
+	c02Vals = append(c02Vals, long, long[:2048], long[:2047]+"x", long[:1024])
+}
